@@ -553,7 +553,15 @@ def run_mcp(desc):
     items = []
     rid = 0
     for _ in range(desc["n"]):
-        txs = midpoint_ledger(rng) if rng.random() < 0.5 else gen_case(rng, "random")
+        k_ = rng.random()
+        if k_ < 0.35:
+            txs = midpoint_ledger(rng)
+        elif k_ < 0.65:
+            txs = gen_case(rng, "random")
+        else:
+            # 30-day shapes followed by capital events: a later CAPRETURN/ACCUMULATION reaches back into the 30-day leg of
+            # an earlier disposal, so every front end must have computed from the whole history
+            txs = gen_ledger(rng, Opts(capital=True, splits=rng.random() < 0.3, n_sec=(1, 2), steps=(6, 12), templates_p=0.6))[0]
         text = render_dsl(txs)
         lib = p.one(lc.calc_case(txs, fx="bundled"))
         if "ok" not in lib:
